@@ -1,1 +1,5 @@
+pub mod finalize_suite;
+pub mod flatten_suite;
+pub mod groupby_suite;
 pub mod pipe_suite;
+pub mod subject_suite;
